@@ -104,8 +104,35 @@ func VerifC20() {
 		// natively the envelope grammar is go-cose's own; replay a representative of the class
 		buf = verifNativeEnvelope(envelopeOK, claimsOK)
 	}
-	ev, err := DecodeEvidenceFromCOSE(buf)
+	// "used": the same decode into an Evidence that already has claims attached (nothing of the
+	// earlier state may make up for what the new envelope lacks)
+	used := ndParam("used", 0) == 1
+	var ev *Evidence
+	var err error
+	if used {
+		ev = &Evidence{}
+		if ev.SetClaims(c19valid("pre.", ".P").c) != nil {
+			return
+		}
+		err = ev.UnmarshalCOSE(buf)
+		if err != nil {
+			ev = nil
+		}
+	} else {
+		ev, err = DecodeEvidenceFromCOSE(buf)
+	}
 	if !ndSymbolic() {
+		// further representatives of classes the property names, asserted under the id of the
+		// symbolic obligation whose failure they are the observable consequence of
+		good := verifNativeEnvelope(true, true)
+		_, uerr := DecodeEvidenceFromCOSE(good[1:]) // the same message without its tag
+		ndAssert("c20-whole-buffer-reaches-envelope-decoder", uerr != nil)
+		nilp := verifNativeNilPayload()
+		ue := &Evidence{}
+		_ = ue.SetClaims(verifBuilderClaims())
+		ndAssert("c20-nil-or-empty-payload-is-an-error", ue.UnmarshalCOSE(nilp) != nil)
+		_, ferr := DecodeEvidenceFromCOSE(nilp)
+		ndAssert("c20-nil-or-empty-payload-is-an-error", ferr != nil)
 		ndAssert("c20-native-class", (err == nil) == (envelopeOK && claimsOK))
 		ndCover("c20-accepts", err == nil)
 		ndCover("c20-rejects-envelope", err != nil && !envelopeOK)
@@ -152,6 +179,12 @@ func verifNativeEnvelope(envelopeOK, claimsOK bool) []byte {
 		out[0] = 0xd1 // COSE_Mac0 tag instead of COSE_Sign1
 	}
 	return out
+}
+
+// verifNativeNilPayload: a tagged COSE_Sign1 whose payload is null (signature bytes arbitrary:
+// decoding must already refuse it)
+func verifNativeNilPayload() []byte {
+	return []byte{0xd2, 0x84, 0x43, 0xa1, 0x01, 0x26, 0xa0, 0xf6, 0x44, 0xde, 0xad, 0xbe, 0xef}
 }
 
 // verifBuilderClaims: one concrete valid profile-1 claims-set (native helper)
@@ -221,7 +254,11 @@ func VerifC02() {
 		ndAssert("c02-modified-token-never-verifies", !(differs || key != 0) || verr != nil)
 		ndCoverSym("c02-identical-message-verifies", !differs && key == 0 && verr == nil)
 	}
-	ndCover("c02-honest-verifies", e.Verify(w.pubAlg(0, alg)) == nil)
+	okRight := e.Verify(w.pubAlg(0, alg)) == nil
+	ndCover("c02-honest-verifies", okRight)
+	// a different key is refused also AFTER the right one has been accepted on the same Evidence
+	// (a caller looping over candidate trust anchors)
+	ndAssert("c02-other-key-never-verifies-after-the-right-one", e.Verify(w.pubAlg(1, alg)) != nil)
 }
 
 // no algorithm in the protected header / no payload / no signature: never verifies, whatever
